@@ -32,14 +32,22 @@ Definition bits (t : ity) : Z :=
   match t with I8 | U8 => 8 | I32 | U32 => 32 | I64 | U64 => 64 end.
 Definition signed (t : ity) : bool :=
   match t with I8 | I32 | I64 => true | _ => false end.
-Definition lo (t : ity) : Z := if signed t then - 2 ^ (bits t - 1) else 0.
-Definition hi (t : ity) : Z := if signed t then 2 ^ (bits t - 1) - 1 else 2 ^ bits t - 1.
+(* 2^bits and 2^(bits-1) as literals (so that evaluation does not recompute powers) *)
+Definition modulus (t : ity) : Z :=
+  match t with I8 | U8 => 256 | I32 | U32 => 4294967296 | I64 | U64 => 18446744073709551616 end.
+Definition half (t : ity) : Z :=
+  match t with I8 | U8 => 128 | I32 | U32 => 2147483648 | I64 | U64 => 9223372036854775808 end.
+Lemma modulus_pow t : modulus t = 2 ^ bits t.  Proof. destruct t; reflexivity. Qed.
+Lemma half_pow t : half t = 2 ^ (bits t - 1).  Proof. destruct t; reflexivity. Qed.
+
+Definition lo (t : ity) : Z := if signed t then - half t else 0.
+Definition hi (t : ity) : Z := if signed t then half t - 1 else modulus t - 1.
 Definition in_range (t : ity) (z : Z) : bool := (lo t <=? z) && (z <=? hi t).
 
 (* two's-complement wrap-around into the range of t *)
 Definition wrap (t : ity) (z : Z) : Z :=
-  if signed t then (z + 2 ^ (bits t - 1)) mod 2 ^ bits t - 2 ^ (bits t - 1)
-  else z mod 2 ^ bits t.
+  if signed t then (z + half t) mod modulus t - half t
+  else z mod modulus t.
 
 Definition iadd t a b := wrap t (a + b).
 Definition isub t a b := wrap t (a - b).
@@ -100,9 +108,9 @@ Definition as_float (n : num) : float := match n with Zn z => float_of_Z z | Fn 
    - uint32, int64/int go through CVTTSD2SQ (indefinite 0x8000000000000000);
    - uint64/uint: values >= 2^63 are converted as (f - 2^63) with the top bit set. *)
 Definition cvt32 (z : option Z) : Z :=
-  match z with Some z => if in_range I32 z then z else - 2 ^ 31 | None => - 2 ^ 31 end.
+  match z with Some z => if in_range I32 z then z else -2147483648 | None => -2147483648 end.
 Definition cvt64 (z : option Z) : Z :=
-  match z with Some z => if in_range I64 z then z else - 2 ^ 63 | None => - 2 ^ 63 end.
+  match z with Some z => if in_range I64 z then z else -9223372036854775808 | None => -9223372036854775808 end.
 Definition cvt_z (t : ity) (z : option Z) : Z :=
   match t with
   | I32 => cvt32 z
@@ -111,8 +119,8 @@ Definition cvt_z (t : ity) (z : option Z) : Z :=
   | I64 => cvt64 z
   | U64 => match z with      (* y | (z & (y >>a 63)) with y = cvt64 f, z = cvt64 (f - 2^63) *)
            | Some v => if v <? 0 then wrap U64 (cvt64 (Some v))
-                       else if v <? 2 ^ 64 then v else 2 ^ 63
-           | None => 2 ^ 63
+                       else if v <? 18446744073709551616 then v else 9223372036854775808
+           | None => 9223372036854775808
            end
   end.
 Definition cvt (t : ity) (n : num) : Z :=
